@@ -51,6 +51,8 @@ func Wrap[T any](x T) Box[T]                           { var z Box[T]; return z 
 func Unwrap[T any](b Box[T]) T                         { var z T; return z }
 func Compose[A, B, C any](f func(A) B, g func(B) C) func(A) C { return nil }
 func Fold[T, A any](xs []T, init A, f func(A, T) A) A  { return init }
+func SumS[S ~[]E, E ~int | ~float64](s S) E            { var z E; return z }
+func App[S ~[]E, E any](s S, e ...E) S                 { return s }
 
 var (
 	vi   int
@@ -92,7 +94,7 @@ var genericFns = []genericFn{
 	{"Id", 1, 1, false}, {"MkMap", 2, 2, false}, {"Sum", 1, 0, true}, {"Max", 1, 2, false}, {"Map", 2, 2, false}, {"Filter", 2, 2, false},
 	{"Keys", 3, 1, false}, {"Apply", 1, 1, true}, {"Deref", 1, 1, false}, {"Recv", 1, 1, false}, {"Conv", 2, 1, false}, {"Str", 1, 1, false},
 	{"Num", 1, 1, false}, {"Zero", 1, 0, false}, {"Nested", 1, 1, false}, {"Two", 1, 2, false}, {"Cmp", 1, 2, false}, {"Wrap", 1, 1, false},
-	{"Unwrap", 1, 1, false}, {"Compose", 3, 2, false}, {"Fold", 2, 3, false},
+	{"Unwrap", 1, 1, false}, {"Compose", 3, 2, false}, {"Fold", 2, 3, false}, {"SumS", 2, 1, false}, {"App", 2, 1, true},
 }
 
 var genericArgs = []string{
@@ -108,10 +110,10 @@ var genericArgs = []string{
 	// typed constants / conversions
 	"int8(1)", "N(2)", "F(1.5)", "float32(1)",
 	// nested generic calls
-	"Id(vi)", "Id(1)", "Wrap(vs)", "Sum(1, 2)", "Zero[int]()",
+	"Id(vi)", "Id(1)", "Wrap(vs)", "Sum(1, 2)", "Zero[int]()", "SumS[[]float64]", "App[SL]",
 }
 
-var genericTypeArgs = []string{"int", "string", "float64", "N", "F", "[]int", "SL", "MP", "int8", "any", "*int", "bool", "func(int) int", "Box[int]", "map[string]int", "uint"}
+var genericTypeArgs = []string{"int", "string", "float64", "N", "F", "[]int", "SL", "MP", "int8", "any", "*int", "bool", "func(int) int", "Box[int]", "map[string]int", "uint", "[]uint", "[]string", "[]float64"}
 
 // GenericProgram draws a program with one statement that calls or references a generic function.
 func GenericProgram(t *rapid.T) (src string, feats []string) {
@@ -161,6 +163,8 @@ func GenericProgram(t *rapid.T) (src string, feats []string) {
 			a := pick("arg", genericArgs)
 			args = append(args, a)
 			switch {
+			case a == "SumS[[]float64]" || a == "App[SL]":
+				feats = append(feats, "partial-inst-function-arg")
 			case a == "nil":
 				feats = append(feats, "nil-arg")
 			case strings.HasPrefix(a, "func("):
